@@ -380,12 +380,17 @@ Lemma offer_write_vec r : offer_write VBase r = Ok (0, rlen r).
 Proof. reflexivity. Qed.
 
 (* reading spare capacity: `buf.uninit()` offers exactly [len, cap) *)
-Lemma offer_read_uninit r : rlen r <= rcap r -> offer_read (VUninit VBase (rlen r)) r = Ok (rlen r, rcap r - rlen r).
+Lemma offer_read_uninit r :
+  rlen r <= rcap r ->
+  offer_read (VUninit VBase (rlen r)) r = Ok (rlen r, rcap r - rlen r).
 Proof.
-  intros H. unfold offer_read, r_as_uninit. cbn [as_uninit buf_len as_init root_init root_uninit rbind sub_range snd].
-  rewrite Nat.min_id. rewrite Nat.leb_refl. cbn [rbind snd]. rewrite Nat.sub_diag.
+  intros H. unfold offer_read, r_as_uninit.
+  assert (EL : buf_len root_init (VUninit VBase (rlen r)) r = Ok 0).
+  { unfold buf_len. cbn [as_init root_init rbind sub_range].
+    rewrite Nat.min_id, Nat.leb_refl. cbn [rbind snd]. now rewrite Nat.sub_diag. }
+  cbn [as_uninit]. rewrite EL. cbn [rbind root_uninit sub_range].
   rewrite Nat.min_id. destruct (Nat.leb_spec (rlen r) (rcap r)) as [_|]; [|lia].
-  cbn [rbind]. cbn [Nat.leb]. rewrite Nat.add_0_r, Nat.sub_0_r, Nat.add_0_l. reflexivity.
+  cbn [rbind Nat.leb]. rewrite Nat.add_0_r, Nat.sub_0_r, Nat.add_0_l. reflexivity.
 Qed.
 
 (* single-buffer write: only initialised bytes are handed to the OS, the
@@ -455,7 +460,7 @@ Proof.
   induction ms as [|m r IH]; intros bs; [constructor|].
   cbn [vspec map chunks combine]. constructor; [|apply IH].
   cbn [fst snd rcells rlen rkind]. split; [reflexivity|]. split; [|reflexivity].
-  rewrite firstn_length. reflexivity.
+  rewrite firstn_length. rewrite (Nat.min_comm (rcap m)). reflexivity.
 Qed.
 
 (* vectored write: the concatenation of the initialised parts *)
